@@ -435,7 +435,7 @@ class BSL(ModelBased):
                 logJ[i] = np.log(b-a) - np.log((1/ey) + 2 + ey)
 
             if type_i == '1':
-                logJ[i] = y
+                logJ[i] = -y
             if type_i == '2':
                 logJ[i] = y
             if type_i == '3':
